@@ -4,6 +4,7 @@
 package bfe_http2
 
 import (
+	"bytes"
 	"net"
 	"strconv"
 	"strings"
@@ -39,6 +40,14 @@ type VerifPrioTree struct {
 	sc      *serverConn
 	all     []*stream
 	release chan struct{}
+
+	// wire mode: the scripted client's bytes -> the connection's own Framer (ReadMetaHeaders) ->
+	// the real processFrameFromReader; the harness plays the frame-writing goroutine (pump).
+	rd         *bytes.Buffer
+	cf         *Framer
+	hbuf       bytes.Buffer
+	henc       *hpack.Encoder
+	readerGone bool
 }
 
 func NewVerifPrioTree() *VerifPrioTree {
@@ -76,7 +85,95 @@ func NewVerifPrioTree() *VerifPrioTree {
 	sc.inflow.add(initialWindowSize)
 	sc.hpackEncoder = hpack.NewEncoder(&sc.headerWriteBuf)
 	t.sc = sc
+	// wire side
+	t.rd = new(bytes.Buffer)
+	fr := NewFramer(sc.bw, t.rd)
+	fr.ReadMetaHeaders = hpack.NewDecoder(initialHeaderTableSize, nil)
+	fr.MaxHeaderListSize = sc.maxHeaderListSize()
+	fr.MaxHeaderUriSize = sc.maxHeaderUriSize()
+	fr.SetMaxReadFrameSize(s.maxReadFrameSize())
+	sc.framer = fr
+	t.cf = NewFramer(t.rd, nil)
+	t.cf.AllowIllegalWrites = true
+	t.henc = hpack.NewEncoder(&t.hbuf)
 	return t
+}
+
+// WireStart does what serve() does before its loop and lets the client send its first SETTINGS.
+func (t *VerifPrioTree) WireStart() {
+	t.sc.writeFrame(frameWriteMsg{write: writeSettings{{SettingMaxConcurrentStreams, t.sc.advMaxStreams}}})
+	t.sc.unackedSettings++
+	t.pump()
+	t.cf.WriteSettings()
+	t.readAndProcess()
+}
+
+// pump plays the writeFrames goroutine: every scheduled frame is written at once (GOAWAY is only
+// acknowledged: its writeFrame sleeps and closes the conn).
+func (t *VerifPrioTree) pump() {
+	for {
+		select {
+		case wm := <-t.sc.writeFrameCh:
+			var err error
+			if _, isGoAway := wm.write.(*writeGoAway); !isGoAway {
+				err = wm.write.writeFrame(t.sc)
+			}
+			t.sc.wroteFrame(frameWriteResult{wm, err})
+		default:
+			return
+		}
+	}
+}
+
+// readAndProcess is one iteration of the serve loop for a frame from the reader goroutine.
+func (t *VerifPrioTree) readAndProcess() {
+	f, err := t.sc.framer.ReadFrame()
+	if terminalReadFrameError(err) {
+		t.readerGone = true // serverConn.readFrames returns: no later frame is ever read
+		t.rd.Reset()
+	}
+	known := map[*stream]bool{}
+	for _, s := range t.all {
+		known[s] = true
+	}
+	t.sc.processFrameFromReader(readFrameResult{f, err, func() {}})
+	t.pump()
+	for _, s := range t.sc.streams {
+		if !known[s] {
+			t.all = append(t.all, s)
+		}
+	}
+}
+
+// ReaderGone reports that the frame reader met a terminal error (the connection reads nothing more).
+func (t *VerifPrioTree) ReaderGone() bool { return t.readerGone }
+
+// WireOpen sends a request HEADERS frame (END_STREAM, END_HEADERS, hpack-encoded GET / https) with
+// the priority fields if hasPrio, through the real Framer and serve-loop code.
+func (t *VerifPrioTree) WireOpen(id uint32, hasPrio bool, p PriorityParam) {
+	t.hbuf.Reset()
+	t.henc.WriteField(hpack.HeaderField{Name: ":method", Value: "GET"})
+	t.henc.WriteField(hpack.HeaderField{Name: ":scheme", Value: "https"})
+	t.henc.WriteField(hpack.HeaderField{Name: ":authority", Value: "verif"})
+	t.henc.WriteField(hpack.HeaderField{Name: ":path", Value: "/"})
+	hp := HeadersFrameParam{StreamID: id, BlockFragment: t.hbuf.Bytes(), EndStream: true, EndHeaders: true}
+	if hasPrio {
+		hp.Priority = p
+	}
+	t.cf.WriteHeaders(hp)
+	t.readAndProcess()
+}
+
+// WirePriority sends a PRIORITY frame.
+func (t *VerifPrioTree) WirePriority(id uint32, p PriorityParam) {
+	t.cf.WritePriority(id, p)
+	t.readAndProcess()
+}
+
+// WireReset sends RST_STREAM(CANCEL): the real processResetStream closes the stream.
+func (t *VerifPrioTree) WireReset(id uint32) {
+	t.cf.WriteRSTStream(id, ErrCodeCancel)
+	t.readAndProcess()
 }
 
 // Done ends the connection: handlers see doneServing closed and return.
